@@ -548,6 +548,7 @@ def _run_checked(ctx, wroot, t0, empty):
     per_tf, per_form, outcomes, viol, samples, observations = {}, {}, {}, {}, {}, {}
     validated = transitions = 0
     fresh = {}
+    fresh_meta = {}
     with Pool(os.cpu_count(), initializer=_init, initargs=(ctx.bdir, wroot)) as pool:
         for tf, form, ac, outcome, key, what, rp, sample, keep in pool.imap_unordered(evaluate, units, chunksize=32):
             transitions += 1
@@ -576,6 +577,7 @@ def _run_checked(ctx, wroot, t0, empty):
                 samples[(tf, form, outcome)].append(sample)
             if keep and outcome in ("ok", "rejected", "wrong", "accepted-invalid", "rejected-valid"):
                 fresh[keep[0]] = keep[1]
+                fresh_meta[keep[0]] = (tf, ac, outcome)
         # ---- long-session differential (state leaking between tf commands)
         items = sorted(fresh.items())
         random.Random(ctx.seed + 1).shuffle(items)
@@ -587,6 +589,28 @@ def _run_checked(ctx, wroot, t0, empty):
             validated += n
             for outcome, key, what, rp in bad:
                 outcomes[outcome] = outcomes.get(outcome, 0) + 1
+                v = viol.setdefault(key, {"key": key, "what": what, "count": 0, "replay": rp})
+                v["count"] += 1
+        # ---- every ordered pair of representative commands in one process (the shuffle above decides which command precedes which;
+        #      here the order is exhaustive): the second command's reply must be the one it gives in a fresh process
+        by_class = {}
+        for c, rpl in sorted(fresh.items(), key=lambda kv: (len(kv[0]), kv[0])):
+            tfn, ac, oc = fresh_meta.get(c, (None, None, None))
+            if tfn is None or oc != "ok":
+                continue
+            L = by_class.setdefault((tfn, ac), [])      # the shortest accepted command(s) of every (transform, argument class)
+            if len(L) < (1 if ctx.tier == "quick" else 2):
+                L.append((c, rpl))
+        reps = [x for k in sorted(by_class) for x in by_class[k]]
+        pair_sessions = 0
+        pairs = [[a, b] for a in reps for b in reps]
+        for bad, n in pool.imap_unordered(session_check, pairs, chunksize=64):
+            pair_sessions += 1
+            transitions += n
+            validated += n
+            for outcome, key, what, rp in bad:
+                outcomes[outcome] = outcomes.get(outcome, 0) + 1
+                key = key.replace("session-state-leak:", "session-state-leak:after-one-command:")
                 v = viol.setdefault(key, {"key": key, "what": what, "count": 0, "replay": rp})
                 v["count"] += 1
     # ---- vacuity guards
@@ -619,6 +643,7 @@ def _run_checked(ctx, wroot, t0, empty):
         "violation_keys": {k: v["count"] for k, v in sorted(viol.items())},
         "observations": observations,
         "long_session_commands_compared": session_cmds,
+        "ordered_pair_sessions": pair_sessions, "ordered_pair_representatives": len(reps),
         "tf_table": names, "transforms_missing_from_tool": missing,
         "notes": [
             "the inline names printed by `tf -h` (b32d, b58ce, jacobi_sym, ...) are not the names Value::do_exec understands (bech32dec, base58chkenc, jacobi, ...); bech32m-encode, len and verify-sig-compact have no inline form",
